@@ -27,6 +27,7 @@ LOC = "crates/syntax/src/parser.rs"
 def run(F, res, tier):
     from rules import c05 as _c05s18
     _c05s18.name_tables_have_one_duplicate_policy(F, res, rule="N8")   # a symbol declared twice is one symbol for rename
+    _c05s18.qualified_types_do_not_fall_back(F, res, rule="N9")         # `other.Kind` is never the local `Kind` (rename would miss / capture it)
     R = pcache.results(F)
     n = 0
     for key, v in sorted(R["finish_sites"].items()):
